@@ -129,7 +129,7 @@ def run(ck, ix, tier):
     ck.check(len(unary) == 1, "G-TABLE", "_build_eval_tree|unary-operand-parsed-at-unary-priority", fb.loc(), "operand of a unary sign parsed with prev_op='unary'", "the operand of a unary sign is no longer parsed at the 'unary' priority")
     # every `return result, ...` needs result to be known non-None
     rets = [r for r in return_nodes(cfg) if isinstance(cfg.nodes[r].ast.value, ast.Tuple) and norm(cfg.nodes[r].ast.value.elts[0]) == "result"]
-    ck.floor("G-DOM", len(rets), 5, "returns of the tree builder")
+    ck.floor("G-DOM", len(rets), 3, "returns of the tree builder")
     asserts = [n.id for n in cfg.nodes if n.kind == "stmt" and isinstance(n.ast, ast.Assert) and norm(n.ast.test) == "result is not None"]
     rtests = [n.id for n in cfg.nodes if n.kind == "test" and norm(n.ast) == "result"]
     for r in live(cfg, rets):
@@ -271,7 +271,7 @@ def reach_rule(ck, ix, rs):
                 parent.setdefault(g, f)
                 stack.append(g)
     ck.extra["reach_functions"] = len(seen)
-    ck.floor("G-REACH", len(seen), 60, "functions reachable from the parser entry points")
+    ck.floor("G-REACH", len(seen), 30, "functions reachable from the parser entry points")
 
     def chain(f):
         out = [f.qualname]
